@@ -81,7 +81,7 @@ def job_state_anomalies(samples, jobs) -> list[dict]:
 
     While a job is in flight the only writer of its step's state is the job: a RUN job keeps the row RUNNING
     and ends it SUCCEEDED, FAILED or PENDING (deferral); a SKIP / VALIDATE_DYNAMIC job keeps it CHECKING and
-    ends it SUCCEEDED or PENDING.  Any other sequence means that the row was re-initialised under the job
+    ends it SUCCEEDED, PENDING or FAILED (an input changed under the check).  Any other sequence means that the row was re-initialised under the job
     (the step was redefined by its re-running creator): F9.  `samples`: (commit, time, label -> state)."""
     bad = []
     for job in jobs:
@@ -93,7 +93,7 @@ def job_state_anomalies(samples, jobs) -> list[dict]:
                 if not seq or seq[-1] != rows[job.label]:
                     seq.append(rows[job.label])
         busy = RUNNING if job.kind == "RUN" else 25
-        finals = (23, 24, 21) if job.kind == "RUN" else (23, 21)
+        finals = (23, 24, 21)  # SUCCEEDED, FAILED (also a hash check that finds a changed input), PENDING
         ok = seq in ([], [busy]) or (len(seq) == 1 and seq[0] in finals) or \
             (len(seq) == 2 and seq[0] == busy and seq[1] in finals)
         if not ok:
